@@ -4,6 +4,8 @@ package otter
 // a sanctioned, truthful reason) and C20 (statistics count exactly what happened) reuse the model oracle
 // of zz_verif_seq.go: syncEvents/syncPlain/checkStats carry the assertions, prefixed with the property's tag.
 
+import "github.com/maypok86/otter/v2/stats"
+
 func init() {
 	vRegister("ZZ_C06_Sync", ZZ_C06_Sync)
 	vRegister("ZZ_C06_Sym", ZZ_C06_Sym)
@@ -96,4 +98,110 @@ func ZZ_C20_Sym() {
 	cfg := zzCfgFromParams()
 	cfg.stats = true
 	zzRunSym("c20", cfg)
+}
+
+func init() {
+	vRegister("ZZ_C20_Par", ZZ_C20_Par)
+	vRegister("ZZ_C06_Par", ZZ_C06_Par)
+}
+
+// ZZ_C20_Par: two threads of counting operations on one cache with the real stats.Counter: totals are exact.
+func ZZ_C20_Par() {
+	ctr := stats.NewCounter()
+	c := Must(&Options[int, int]{Logger: &NoopLogger{}, StatsRecorder: ctr})
+	c.Set(1, 1)
+	ops := func(which int) func() {
+		return func() {
+			switch which {
+			case 0:
+				c.GetIfPresent(1) // hit
+				c.GetIfPresent(2) // miss
+			case 1:
+				c.Compute(1, func(o int, f bool) (int, ComputeOp) { return o, CancelOp }) // hit
+				c.ComputeIfPresent(3, func(o int) (int, ComputeOp) { return o, CancelOp }) // miss
+			case 2:
+				c.GetEntry(1)          // hit
+				c.GetEntryQuietly(2)   // not counted
+				c.SetIfAbsent(1, 5)    // not counted
+				c.ComputeIfAbsent(1, func() (int, bool) { return 0, true }) // hit
+			}
+		}
+	}
+	a, b := vChoice("opsA", 3), vChoice("opsB", 3)
+	vPar(ops(a), ops(b))
+	hits := []uint64{1, 1, 2}
+	misses := []uint64{1, 1, 0}
+	st := ctr.Snapshot()
+	vAssert(st.Hits == hits[a]+hits[b], "c20.par.hits_exact")
+	vAssert(st.Misses == misses[a]+misses[b], "c20.par.misses_exact")
+}
+
+// ZZ_C06_Par: replacement / invalidation racing with the eviction of the same key (maximum 1, default executor):
+// after quiescence and CleanUp every value that is no longer current was reported exactly once to each handler,
+// values still present never, and per key the atomic handler saw installation order.
+func ZZ_C06_Par() {
+	var atomicEv, plainEv []zzEvent
+	c := Must(&Options[int, int]{
+		MaximumSize: vParam("max"),
+		Logger:      &NoopLogger{},
+		OnAtomicDeletion: func(e DeletionEvent[int, int]) {
+			vAtomic(func() { atomicEv = append(atomicEv, zzEvent{key: e.Key, val: e.Value, cause: e.Cause}) })
+		},
+		OnDeletion: func(e DeletionEvent[int, int]) {
+			vAtomic(func() { plainEv = append(plainEv, zzEvent{key: e.Key, val: e.Value, cause: e.Cause}) })
+		},
+	})
+	c.Set(1, 101)
+	c.CleanUp()
+	opA, opB := vChoice("opA", 3), vChoice("opB", 3)
+	names := []string{"SetSameKey", "SetOtherKey", "Invalidate"}
+	vScenario(names[opA] + "|" + names[opB])
+	written := []int{101}
+	run := func(op, base int) func() {
+		return func() {
+			switch op {
+			case 0:
+				c.Set(1, base+1)
+			case 1:
+				c.Set(base, base+2)
+			case 2:
+				c.Invalidate(1)
+			}
+		}
+	}
+	for i, op := range []int{opA, opB} {
+		base := 200 * (i + 1)
+		switch op {
+		case 0:
+			written = append(written, base+1)
+		case 1:
+			written = append(written, base+2)
+		}
+	}
+	vPar(run(opA, 200), run(opB, 400))
+	c.CleanUp()
+	present := map[int]bool{}
+	for _, v := range c.All() {
+		present[v] = true
+	}
+	for _, v := range written {
+		na, np := 0, 0
+		for _, e := range atomicEv {
+			if e.val == v {
+				na++
+			}
+		}
+		for _, e := range plainEv {
+			if e.val == v {
+				np++
+			}
+		}
+		if present[v] {
+			vAssert(na == 0 && np == 0, "c06.par.present_value_never_reported")
+		} else {
+			vAssert(na == 1, "c06.par.removed_value_reported_exactly_once_atomic")
+			vAssert(np == 1, "c06.par.removed_value_reported_exactly_once_plain")
+		}
+	}
+	vAssert(len(atomicEv) == len(plainEv), "c06.par.handlers_agree")
 }
